@@ -73,6 +73,9 @@ template<class T>
 int run(){
 	bool pure = true;
 	std::size_t n = 0, ctr = 0;
+	// the two most recently requested rows (most recent first), for the
+	// "stay valid while a third is fetched if capacity allows" clause
+	long recent[2] = {-1, -1};
 	SynthMatrix<T>* base = new SynthMatrix<T>(0);
 	Probe<T>* m = new Probe<T>(base, 0);
 	std::string line;
@@ -86,11 +89,21 @@ int run(){
 		std::string r;
 		if(op == "new" && a.size() == 2){
 			delete m; delete base;
-			n = a[0]; base = new SynthMatrix<T>(n); m = new Probe<T>(base, a[1]); pure = true; ctr = 0;
+			n = a[0]; base = new SynthMatrix<T>(n); m = new Probe<T>(base, a[1]); pure = true; ctr = 0; recent[0] = recent[1] = -1;
 		}else if(op == "row" && a.size() == 2){
+			// before the fetch: remember pointers/lengths of the two most recent rows
+			T const* rp[2] = {0, 0}; std::size_t rl[2] = {0, 0}; bool must[2] = {false, false};
+			bool third = recent[0] >= 0 && recent[1] >= 0 && (long)a[0] != recent[0] && (long)a[0] != recent[1] && recent[0] != recent[1];
+			if(third){
+				for(int q = 0; q != 2; ++q){ rp[q] = m->cache().getLinePointer(recent[q]); rl[q] = m->cache().lineLength(recent[q]); }
+				// both still cached and everything fits: capacity allows keeping them
+				if(rl[0] && rl[1] && rl[0] + rl[1] + a[1] <= m->cache().maxSize()) must[0] = must[1] = true;
+			}
 			T* p = m->row(a[0], 0, a[1]);
+			for(int q = 0; q != 2; ++q) if(must[q] && (m->cache().lineLength(recent[q]) != rl[q] || m->cache().getLinePointer(recent[q]) != rp[q])){ r = "!oracle recent-row-invalidated "; }
+			if((long)a[0] != recent[0]){ recent[1] = recent[0]; recent[0] = (long)a[0]; }
 			// the returned pointer addresses the whole line
-			r = "R=" + showLine(p, m->cache().lineLength(a[0])) + " ";
+			r = "R=" + showLine(p, m->cache().lineLength(a[0])) + " " + r;
 			if(pure) for(std::size_t c = 0; c < a[1]; ++c)
 				if(p[c] != base->entry(a[0], c)){ r += "!oracle returned-row-wrong "; break; }
 		}else if(op == "rows" && a.size() == 3){
@@ -104,22 +117,22 @@ int run(){
 		}else if(op == "entry" && a.size() == 2){
 			r = "R=" + vh::intval(m->entry(a[0], a[1])) + " ";
 		}else if(op == "flip" && a.size() == 2){
-			m->flipColumnsAndRows(a[0], a[1]);
+			m->flipColumnsAndRows(a[0], a[1]); recent[0] = recent[1] = -1;
 		}else if(op == "maxidx" && a.size() == 1){
-			m->setMaxCachedIndex(a[0]);
+			m->setMaxCachedIndex(a[0]); recent[0] = recent[1] = -1;
 		}else if(op == "clear" && a.empty()){
-			m->clear();
+			m->clear(); recent[0] = recent[1] = -1;
 		}else if((op == "get" || op == "resize") && a.size() == 2){
 			std::size_t old = m->cache().lineLength(a[0]);
-			pure = false;
+			pure = false; recent[0] = recent[1] = -1;
 			T* p;
 			if(op == "get") p = m->cache().getCacheLine(a[0], a[1]);
 			else { m->cache().resizeLine(a[0], a[1]); p = m->cache().getLinePointer(a[0]); }
 			for(std::size_t c = old; c < a[1]; ++c) p[c] = T(ctr*512 + a[0]*40 + c);
 		}else if(op == "mark" && a.size() == 1){
-			m->cache().markLineForDeletion(a[0]);
+			m->cache().markLineForDeletion(a[0]); recent[0] = recent[1] = -1;
 		}else if(op == "swap" && a.size() == 2){
-			m->cache().swapLineIndices(a[0], a[1]);
+			m->cache().swapLineIndices(a[0], a[1]); recent[0] = recent[1] = -1;
 		}else{ std::cout << "bad-op\n"; continue; }
 		std::string orc = oracle(*m, *base, n, pure);
 		// oracle remarks go last so that the comparison with the model can strip them
